@@ -23,6 +23,7 @@ use crate::{
     duration::Duration,
     entity::RTPSEntity,
     guid::{EntityId, GuidPrefix, GUID},
+    locator::Locator,
   },
 };
 use super::{
@@ -751,6 +752,58 @@ impl DiscoveryDB {
       .filter(|drd| drd.subscription_topic_data.topic_name() == topic_name)
       .cloned()
       .collect()
+  }
+
+  // All the writers we know on a topic, with the default locators of their
+  // participant, like update_publication() returns them.
+  pub fn writers_on_topic(&self, topic_name: &str) -> Vec<DiscoveredWriterData> {
+    self
+      .external_topic_writers
+      .values()
+      .filter(|dwd| dwd.publication_topic_data.topic_name == topic_name)
+      .map(|dwd| {
+        let (unicast, multicast) =
+          self.default_locators_of(dwd.writer_proxy.remote_writer_guid.prefix);
+        DiscoveredWriterData {
+          writer_proxy: WriterProxy::from(RtpsWriterProxy::from_discovered_writer_data(
+            dwd, &unicast, &multicast,
+          )),
+          ..dwd.clone()
+        }
+      })
+      .collect()
+  }
+
+  // All the readers we know on a topic, with the default locators of their
+  // participant, like update_subscription() returns them.
+  pub fn readers_on_topic(&self, topic_name: &str) -> Vec<DiscoveredReaderData> {
+    self
+      .external_topic_readers
+      .values()
+      .filter(|drd| drd.subscription_topic_data.topic_name() == topic_name)
+      .map(|drd| {
+        let (unicast, multicast) =
+          self.default_locators_of(drd.reader_proxy.remote_reader_guid.prefix);
+        DiscoveredReaderData {
+          reader_proxy: ReaderProxy::from(RtpsReaderProxy::from_discovered_reader_data(
+            drd, &unicast, &multicast,
+          )),
+          ..drd.clone()
+        }
+      })
+      .collect()
+  }
+
+  fn default_locators_of(&self, participant: GuidPrefix) -> (Vec<Locator>, Vec<Locator>) {
+    self
+      .find_participant_proxy(participant)
+      .map(|pp| {
+        (
+          pp.default_unicast_locators.clone(),
+          pp.default_multicast_locators.clone(),
+        )
+      })
+      .unwrap_or_default()
   }
 
   // // TODO: return iterator somehow?
